@@ -40,6 +40,7 @@ type Server struct {
 	wg          sync.WaitGroup
 	closed      bool
 	OnResult    func(sql string, res *Result) // optional: tamper with results before they are sent
+	byteaOutput string                        // "" / hex / escape (SetByteaOutput)
 }
 
 // NewServer starts a server on a loopback port.
@@ -464,7 +465,7 @@ func (s *Server) serve(id int, c net.Conn) {
 				if res.Fields != nil {
 					be.Send(rowDesc(res.Fields, nil))
 					for _, r := range res.Rows {
-						be.Send(dataRow(res.Fields, r, nil))
+						be.Send(s.outRow(dataRow(res.Fields, r, nil), res.Fields, nil))
 					}
 				}
 				be.Send(&pgproto3.CommandComplete{CommandTag: []byte(res.Tag)})
@@ -563,7 +564,7 @@ func (s *Server) serve(id int, c net.Conn) {
 				max := int(x.MaxRows)
 				n := 0
 				for po.sent < len(po.res.Rows) && (max == 0 || n < max) {
-					be.Send(dataRow(po.res.Fields, po.res.Rows[po.sent], po.formats))
+					be.Send(s.outRow(dataRow(po.res.Fields, po.res.Rows[po.sent], po.formats), po.res.Fields, po.formats))
 					po.sent++
 					n++
 				}
